@@ -16,8 +16,15 @@ use std::sync::atomic::{AtomicU64, Ordering};
 use vh::vcore::*;
 
 pub const DORA_BIN: &str = "/verif/.build/target/release/dora";
-const SRC_X64: &str = "/repo/pkgs/boots/assembler/x64.dora";
-const SRC_ASM: &str = "/repo/pkgs/boots/assembler.dora";
+const SRC_DIR: &str = "/repo/pkgs/boots";
+
+/// sources of the Dora assembler; VASM64_DORA_SRCDIR points the sensitivity study at a mutated copy
+fn src_x64() -> String {
+    format!("{}/assembler/x64.dora", std::env::var("VASM64_DORA_SRCDIR").unwrap_or_else(|_| SRC_DIR.to_string()))
+}
+fn src_asm() -> String {
+    format!("{}/assembler.dora", std::env::var("VASM64_DORA_SRCDIR").unwrap_or_else(|_| SRC_DIR.to_string()))
+}
 const PER_FN: usize = 150;
 
 pub struct DoraAsm {
@@ -36,8 +43,8 @@ impl Drop for DirGuard {
 }
 
 pub fn available() -> Result<(), String> {
-    for p in [DORA_BIN, SRC_X64, SRC_ASM] {
-        if !Path::new(p).exists() {
+    for p in [DORA_BIN.to_string(), src_x64(), src_asm()] {
+        if !Path::new(&p).exists() {
             return Err(format!("{p} not found"));
         }
     }
@@ -104,7 +111,7 @@ fn arg(op: &Op, ty: &str) -> Option<String> {
 
 impl DoraAsm {
     pub fn new(enc: Encode) -> Result<DoraAsm, String> {
-        let src = std::fs::read_to_string(SRC_X64).map_err(|e| format!("cannot read {SRC_X64}: {e}"))?;
+        let src = std::fs::read_to_string(src_x64()).map_err(|e| format!("cannot read {}: {e}", src_x64()))?;
         Ok(DoraAsm { enc, sigs: parse_sigs(&src) })
     }
 
@@ -134,21 +141,15 @@ impl DoraAsm {
         v
     }
 
-    /// subsample of the systematic enumeration: per row the first 48 instances and a stride through the rest
+    /// systematic instances over the compact addressing-mode list; rows with more than `per_row`
+    /// instances are thinned by a stride
     pub fn selection(&self, per_row: usize) -> Batch {
-        let mems = systematic_mems();
+        let mems = compact_mems();
         let mut insts = vec![];
         for row in &self.enc.rows {
             let all = self.enc.systematic(row, 1, &mems);
-            let head = 48.min(all.len());
-            let mut chosen: Vec<Inst> = all[..head].to_vec();
-            let rest = &all[head..];
-            if !rest.is_empty() && per_row > head {
-                let want = per_row - head;
-                let step = (rest.len() / want).max(1);
-                chosen.extend(rest.iter().step_by(step).take(want).cloned());
-            }
-            insts.extend(chosen.into_iter().filter(|i| self.supported(i)));
+            let step = all.len().div_ceil(per_row).max(1);
+            insts.extend(all.into_iter().step_by(step).filter(|i| self.supported(i)));
         }
         Batch { insts }
     }
@@ -159,8 +160,9 @@ impl DoraAsm {
         let dir = PathBuf::from(oracle::SCRATCH).join(format!("c07-dora-{}-{}", std::process::id(), SEQ.fetch_add(1, Ordering::SeqCst)));
         std::fs::create_dir_all(dir.join("assembler")).map_err(|e| format!("cannot create {}: {e}", dir.display()))?;
         let _g = DirGuard(dir.clone());
-        let asm_src = std::fs::read_to_string(SRC_ASM).map_err(|e| e.to_string())?.replace("\npub mod arm64;\n", "\n");
-        let mut x64 = std::fs::read_to_string(SRC_X64).map_err(|e| e.to_string())?;
+        // the assembler's own unit tests are disabled in the copy (only the generated tests run); the code is verbatim
+        let asm_src = std::fs::read_to_string(src_asm()).map_err(|e| e.to_string())?.replace("\npub mod arm64;\n", "\n").replace("@Test", "");
+        let mut x64 = std::fs::read_to_string(src_x64()).map_err(|e| e.to_string())?.replace("@Test", "");
         // group by assembler configuration
         let mut groups: Vec<(bool, Vec<usize>)> = vec![];
         for avx in [false, true] {
